@@ -80,6 +80,76 @@ type action struct {
 	Time       string `json:"time,omitempty"`        // RFC3339(Nano); "" = --timestamp not passed (the command uses its own clock)
 	Overwrite  bool   `json:"overwrite,omitempty"`
 	KeepGoing  bool   `json:"keep_going,omitempty"`
+	// RootSerial and SignSerial always hold the serial the command line DENOTES, in plain decimal
+	// (that is what the oracle uses). The text that is actually passed as the flag's value may be
+	// another decimal spelling of the same number (zero-padded, explicit '+' sign, surrounding
+	// blanks); "" = the plain spelling itself. SplitSerial passes the serial flags as two arguments
+	// (`--flag value`) instead of `--flag=value`.
+	RootSerialText string `json:"root_serial_text,omitempty"`
+	SignSerialText string `json:"sign_serial_text,omitempty"`
+	SplitSerial    bool   `json:"split_serial,omitempty"`
+}
+
+// rootSerialArg / signSerialArg: the text passed on the command line for the serial flags.
+func (a action) rootSerialArg() string {
+	if a.RootSerialText != "" {
+		return a.RootSerialText
+	}
+	return a.RootSerial
+}
+
+func (a action) signSerialArg() string {
+	if a.SignSerialText != "" {
+		return a.SignSerialText
+	}
+	return a.SignSerial
+}
+
+// spelled reports whether a serial flag of the command is passed in another spelling than the
+// plain decimal one.
+func (a action) spelled() bool {
+	return a.RootSerial != "" && a.RootSerialText != "" && a.RootSerialText != a.RootSerial ||
+		a.SignSerial != "" && a.SignSerialText != "" && a.SignSerialText != a.SignSerial
+}
+
+// plain returns the same command with every serial flag in its plain decimal spelling.
+func (a action) plain() action {
+	a.RootSerialText, a.SignSerialText, a.SplitSerial = "", "", false
+	return a
+}
+
+func (a action) serialFlag(name, value string) []string {
+	if a.SplitSerial {
+		return []string{"--" + name, value}
+	}
+	return []string{"--" + name + "=" + value}
+}
+
+// spellingClass names the way text spells the decimal number plain ("" or plain itself = plain).
+func spellingClass(plain, text string) string {
+	if text == "" || text == plain {
+		return "plain"
+	}
+	var c []string
+	u := text
+	if strings.TrimSpace(u) != u {
+		c = append(c, "blank")
+		u = strings.TrimSpace(u)
+	}
+	if strings.HasPrefix(u, "+") {
+		c = append(c, "plus")
+		u = u[1:]
+	} else if strings.HasPrefix(u, "-") {
+		c = append(c, "minus")
+		u = u[1:]
+	}
+	if len(u) > 1 && u[0] == '0' {
+		c = append(c, "zero-padded")
+	}
+	if len(c) == 0 {
+		return "other"
+	}
+	return strings.Join(c, "+")
 }
 
 func (a action) String() string {
@@ -91,6 +161,10 @@ func (a action) String() string {
 		}
 		return b.String()
 	}
+	sep := "="
+	if a.SplitSerial {
+		sep = " "
+	}
 	if a.RootCN != "" {
 		fmt.Fprintf(&b, " --root_key_cn=%q", a.RootCN)
 	}
@@ -98,13 +172,13 @@ func (a action) String() string {
 		fmt.Fprintf(&b, " --signing_key_cn=%q", a.SignCN)
 	}
 	if a.RootSerial != "" {
-		fmt.Fprintf(&b, " --root_key_serial=%s", a.RootSerial)
+		fmt.Fprintf(&b, " --root_key_serial%s%s", sep, quoteUnlessPlain(a.rootSerialArg()))
 	}
 	if a.SignSerial != "" {
 		if a.Kind == "bootstrap" {
-			fmt.Fprintf(&b, " --initial_signing_key_serial=%s", a.SignSerial)
+			fmt.Fprintf(&b, " --initial_signing_key_serial%s%s", sep, quoteUnlessPlain(a.signSerialArg()))
 		} else {
-			fmt.Fprintf(&b, " --rotated_key_serial_override=%s", a.SignSerial)
+			fmt.Fprintf(&b, " --rotated_key_serial_override%s%s", sep, quoteUnlessPlain(a.signSerialArg()))
 		}
 	}
 	if a.Time != "" {
@@ -119,6 +193,13 @@ func (a action) String() string {
 	return b.String()
 }
 
+func quoteUnlessPlain(s string) string {
+	if strings.TrimSpace(s) != s {
+		return strconv.Quote(s)
+	}
+	return s
+}
+
 func (a action) args() []string {
 	args := []string{a.Kind}
 	if a.Kind == "wipeout" {
@@ -130,13 +211,13 @@ func (a action) args() []string {
 			args = append(args, "--root_key_cn="+a.RootCN)
 		}
 		if a.RootSerial != "" {
-			args = append(args, "--root_key_serial="+a.RootSerial)
+			args = append(args, a.serialFlag("root_key_serial", a.rootSerialArg())...)
 		}
 		if a.SignSerial != "" {
-			args = append(args, "--initial_signing_key_serial="+a.SignSerial)
+			args = append(args, a.serialFlag("initial_signing_key_serial", a.signSerialArg())...)
 		}
 	} else if a.SignSerial != "" {
-		args = append(args, "--rotated_key_serial_override="+a.SignSerial)
+		args = append(args, a.serialFlag("rotated_key_serial_override", a.signSerialArg())...)
 	}
 	if a.SignCN != "" {
 		args = append(args, "--signing_key_cn="+a.SignCN)
@@ -447,6 +528,7 @@ type certExp struct {
 	// the instants the harness read right before and right after the command ran.
 	NBLo, NBHi time.Time
 	Name       string // key version name the certificate was created for
+	Spelling   string // how the serial flag that determines Serial was spelled on the command line (spellingClass; "" = no flag)
 	Chain      int    // number of the bootstrap that made the issuing root
 	Step       int
 }
@@ -489,6 +571,7 @@ type model struct {
 	// shape flags for the evidence classes
 	sawNoTime, sawKGCollision, sawLiteralWipe, sawNoClobberPressure, sawPubKeyJudged bool
 	maxRotInChain                                                                    int
+	sawSpelledJudged, sawSpelledRefused, lastRefusedClean                            bool // a certificate whose serial came from a non-plain spelling was judged / a command with one was refused; the last command was refused without side effects
 	chainOverState, rebootOverRotated                                                bool // the current chain was bootstrapped with --overwrite over existing state / and rotated since
 }
 
@@ -586,6 +669,7 @@ func (m *model) step(t ev.TB, a action) bool {
 	}
 	prev := m.prev
 	m.hist = append(m.hist, a)
+	m.lastRefusedClean = false
 	m.runLo = time.Now()
 	err, pan := w.run(a)
 	m.runHi = time.Now()
@@ -678,6 +762,14 @@ func (m *model) step(t ev.TB, a action) bool {
 	if err != nil {
 		if cur.same(prev) {
 			ev.Class("history", "step: refused-without-side-effects/"+a.Kind)
+			m.lastRefusedClean = true
+			if a.spelled() {
+				// A serial flag in a decimal spelling other than the plain one and the command was
+				// refused: refusing is always safe, nothing is demanded (the driver repeats the command
+				// in the plain spelling).
+				m.sawSpelledRefused = true
+				ev.Class("history", "inconclusive/command with a non-plain serial spelling refused without side effects ("+a.spellingClasses()+")")
+			}
 			return true
 		}
 		// A failed command that changed persistent state: failure atomicity is property C10's
@@ -883,8 +975,10 @@ func (m *model) afterBootstrap(t ev.TB, a action, prev, cur *obs) {
 		return
 	}
 	serial := big.NewInt(2)
+	signSpelling := ""
 	if a.SignSerial != "" {
 		serial, _ = new(big.Int).SetString(a.SignSerial, 10)
+		signSpelling = spellingClass(a.SignSerial, a.SignSerialText)
 	}
 	lo, hi := m.window(a)
 	if a.Time == "" {
@@ -894,7 +988,7 @@ func (m *model) afterBootstrap(t ev.TB, a action, prev, cur *obs) {
 		if n != cur.PrimName {
 			return m.unexpectedName(a, n)
 		}
-		return &certExp{Serial: serial, SerialKind: "initial", NBLo: lo, NBHi: hi, Name: n, Chain: m.chain, Step: len(m.hist)}
+		return &certExp{Serial: serial, SerialKind: "initial", Spelling: signSpelling, NBLo: lo, NBHi: hi, Name: n, Chain: m.chain, Step: len(m.hist)}
 	})
 	m.namesEver[cur.PrimName] = m.chain
 
@@ -903,6 +997,29 @@ func (m *model) afterBootstrap(t ev.TB, a action, prev, cur *obs) {
 		r := cur.Root
 		if r.NotBefore.Before(lo) || r.NotBefore.After(hi) {
 			m.report(t, "C12/root-not-dated-at-creation-time", "root certificate made by `%s` is %s", a, certLine(r))
+		}
+		// --root_key_serial is documented as "The serial number of the root key" (default 1). Read
+		// weakly: the root made by this bootstrap carries the number the flag denotes as certificate
+		// serial or as subject serial. A root object the store kept under --keep_going is the recorded
+		// keep-going finding's business, not judged here.
+		want := "1"
+		if a.RootSerial != "" {
+			want = a.RootSerial
+		}
+		if !keptByKeepGoing(m.w.CA, a, prev, cur, r) {
+			sp := spellingClass(want, a.RootSerialText)
+			if a.RootSerial != "" {
+				ev.Class("history", "step: root serial judged, --root_key_serial spelling "+sp)
+			}
+			if r.SerialNumber.String() != want && r.Subject.SerialNumber != want {
+				key := "C12/root-serial-not-requested"
+				if sp != "plain" {
+					key = "C12/serial-flag-text-not-read-as-decimal"
+				}
+				m.report(t, key, "root certificate made by `%s` (--root_key_serial spelling: %s) carries neither as certificate serial nor as subject serial the number %s the command line denotes: %s", a, sp, want, certLine(r))
+			} else if sp != "plain" {
+				m.sawSpelledJudged = true
+			}
 		}
 	}
 }
@@ -939,6 +1056,10 @@ func (m *model) afterRotate(t ev.TB, a action, prev, cur *obs) {
 	}
 	var want *big.Int
 	kind := "override"
+	spelling := ""
+	if a.SignSerial != "" {
+		spelling = spellingClass(a.SignSerial, a.SignSerialText)
+	}
 	if a.SignSerial != "" && a.SignSerial != "0" {
 		want, _ = new(big.Int).SetString(a.SignSerial, 10)
 	} else {
@@ -953,7 +1074,7 @@ func (m *model) afterRotate(t ev.TB, a action, prev, cur *obs) {
 		if n != cur.PrimName {
 			return m.unexpectedName(a, n)
 		}
-		return &certExp{Serial: want, SerialKind: kind, NBLo: lo, NBHi: hi, Name: n, Chain: m.chain, Step: len(m.hist)}
+		return &certExp{Serial: want, SerialKind: kind, Spelling: spelling, NBLo: lo, NBHi: hi, Name: n, Chain: m.chain, Step: len(m.hist)}
 	})
 	m.namesEver[cur.PrimName] = m.chain
 }
@@ -1061,12 +1182,24 @@ func (m *model) judgeChain(t ev.TB, a action, prev, cur *obs) {
 			if !e.dated(c) {
 				m.report(t, ck("C12/signing-cert-not-dated-at-creation-time"), "the %s was created by command %d %s but is %s", who, e.Step, e.whenText(), certLine(c))
 			}
+			if e.Serial != nil && e.Step == len(m.hist) && e.Spelling != "" {
+				ev.Class("history", "step: signing serial judged, rule "+e.SerialKind+", flag spelling "+e.Spelling)
+			}
 			if e.Serial != nil && c.Subject.SerialNumber != e.Serial.String() {
 				key := "C12/requested-serial-not-used"
+				how := ""
 				if e.SerialKind == "default-next" {
 					key = "C12/default-serial-not-predecessor-plus-one"
 				}
-				m.report(t, ck(key), "the %s (made by command %d, serial rule %s) has subject serial %s, want %v", who, e.Step, e.SerialKind, c.Subject.SerialNumber, e.Serial)
+				if e.Spelling != "" && e.Spelling != "plain" {
+					// the flag's value was a decimal spelling other than the plain one (zero-padded, signed,
+					// the 0 sentinel written 00 ...): the number it denotes in decimal was not the one used
+					key = "C12/serial-flag-text-not-read-as-decimal"
+					how = fmt.Sprintf(" (the serial flag was spelled %s: a decimal numeral, which denotes %s whatever its padding or sign)", e.Spelling, a0(e))
+				}
+				m.report(t, ck(key), "the %s (made by command %d, serial rule %s) has subject serial %s, want %v%s", who, e.Step, e.SerialKind, c.Subject.SerialNumber, e.Serial, how)
+			} else if e.Serial != nil && e.Step == len(m.hist) && e.Spelling != "" && e.Spelling != "plain" {
+				m.sawSpelledJudged = true
 			}
 		}
 	}
@@ -1095,6 +1228,25 @@ func (m *model) judgeChain(t ev.TB, a action, prev, cur *obs) {
 		}
 		m.report(t, key, "after `%s` Signer.Sign succeeds for %q, which is not the primary key version %q%s", a, n, cur.PrimName, why)
 	}
+}
+
+func a0(e *certExp) string {
+	if e.SerialKind == "default-next" {
+		return "0, the documented spelling of `predecessor + 1`"
+	}
+	return e.Serial.String()
+}
+
+// spellingClasses renders the spelling classes of the command's serial flags (classification).
+func (a action) spellingClasses() string {
+	var c []string
+	if a.RootSerial != "" {
+		c = append(c, "root:"+spellingClass(a.RootSerial, a.RootSerialText))
+	}
+	if a.SignSerial != "" {
+		c = append(c, "sign:"+spellingClass(a.SignSerial, a.SignSerialText))
+	}
+	return strings.Join(c, ",")
 }
 
 // ---------------------------------------------------------------------------------------------
@@ -1145,6 +1297,54 @@ func genSerial(t *rapid.T, label string, avoid map[string]bool) string {
 		}
 	}
 }
+
+// genSpelledSerial draws a serial for a flag that is going to be written in a non-plain spelling:
+// mostly short numbers (every digit pattern of one and two digit numbers is reachable), otherwise
+// the general serial domain.
+func genSpelledSerial(t *rapid.T, label string, avoid map[string]bool) string {
+	if rapid.IntRange(0, 9).Draw(t, label+"Short") < 6 {
+		for i := 0; i < 8; i++ {
+			z := strconv.Itoa(rapid.IntRange(1, 129).Draw(t, fmt.Sprintf("%sShortVal%d", label, i)))
+			if !avoid[z] {
+				return z
+			}
+		}
+	}
+	return genSerial(t, label, avoid)
+}
+
+// genSpelling draws another decimal spelling of the non-negative decimal numeral plain: zero
+// padding (1..4 zeros), an explicit '+' sign, both, a blank before or after (a spelling a strict
+// parser refuses, which is never held against it), and for 0 also "-0". Every text denotes, read as
+// a decimal numeral, exactly plain. No radix prefixes (0x, 0o, 0b) and no digit separators are
+// produced: they are not decimal spellings and nothing is stated about them.
+func genSpelling(t *rapid.T, label, plain string) string {
+	zeros := strings.Repeat("0", rapid.IntRange(1, 4).Draw(t, label+"Zeros"))
+	switch k := rapid.IntRange(0, 99).Draw(t, label+"Form"); {
+	case k < 55:
+		return zeros + plain
+	case k < 72:
+		return "+" + plain
+	case k < 90:
+		return "+" + zeros + plain
+	case k < 94:
+		if plain == "0" {
+			return "-0"
+		}
+		return " " + plain
+	case k < 97:
+		if plain == "0" {
+			return "-" + zeros + plain
+		}
+		return plain + " "
+	default:
+		return " " + zeros + plain
+	}
+}
+
+// spellRate: how many of the passed serial flags get a non-plain spelling in the generated
+// histories (per cent).
+const spellRate = 30
 
 func genTime(t *rapid.T, label string, lo, hi time.Time) string {
 	var u time.Time
@@ -1215,12 +1415,24 @@ func genAction(t *rapid.T, m *model, i int) action {
 		}
 		rs := "1"
 		if rapid.IntRange(0, 2).Draw(t, "rootSerialSet") > 0 {
-			a.RootSerial = genSerial(t, "rootSerial", nil)
+			if rapid.IntRange(0, 99).Draw(t, "rootSerialSpelled") < spellRate {
+				a.RootSerial = genSpelledSerial(t, "rootSerial", nil)
+				a.RootSerialText = genSpelling(t, "rootSerialText", a.RootSerial)
+			} else {
+				a.RootSerial = genSerial(t, "rootSerial", nil)
+			}
 			rs = a.RootSerial
 		}
 		if rapid.IntRange(0, 2).Draw(t, "signSerialSet") > 0 || rs == "2" {
-			a.SignSerial = genSerial(t, "signSerial", map[string]bool{rs: true, "0": true})
+			avoid := map[string]bool{rs: true, "0": true}
+			if rapid.IntRange(0, 99).Draw(t, "signSerialSpelled") < spellRate {
+				a.SignSerial = genSpelledSerial(t, "signSerial", avoid)
+				a.SignSerialText = genSpelling(t, "signSerialText", a.SignSerial)
+			} else {
+				a.SignSerial = genSerial(t, "signSerial", avoid)
+			}
 		}
+		a.SplitSerial = rapid.IntRange(0, 9).Draw(t, "splitSerial") == 0
 		a.Time = genTime(t, "t0", t0Lo, t0Hi)
 		if rapid.IntRange(0, 9).Draw(t, "noTimestamp") == 0 {
 			a.Time = "" // the command dates its certificates itself
@@ -1265,7 +1477,12 @@ func genAction(t *rapid.T, m *model, i int) action {
 			a.SignSerial = "0" // the documented spelling of "default"
 		}
 	case sk < 8:
-		a.SignSerial = genSerial(t, "override", used)
+		if rapid.IntRange(0, 99).Draw(t, "overrideSpelled") < spellRate {
+			a.SignSerial = genSpelledSerial(t, "override", used)
+			a.SignSerialText = genSpelling(t, "overrideText", a.SignSerial)
+		} else {
+			a.SignSerial = genSerial(t, "override", used)
+		}
 	default: // collide with an existing certificate's subject serial (and its common name)
 		collide = true
 		var ser []string
@@ -1283,6 +1500,11 @@ func genAction(t *rapid.T, m *model, i int) action {
 			}
 		}
 	}
+	// the 0 sentinel and a colliding serial in another decimal spelling
+	if (sk0(a) || collide && a.SignSerial != "") && rapid.IntRange(0, 99).Draw(t, "sentinelSpelled") < spellRate {
+		a.SignSerialText = genSpelling(t, "sentinelText", a.SignSerial)
+	}
+	a.SplitSerial = rapid.IntRange(0, 9).Draw(t, "splitSerial") == 0
 	lo, hi := t0Lo, t0Hi
 	if o.Root != nil {
 		lo, hi = o.Root.NotBefore, o.Root.NotAfter
@@ -1303,9 +1525,11 @@ func genAction(t *rapid.T, m *model, i int) action {
 	return a
 }
 
+func sk0(a action) bool { return a.SignSerial == "0" }
+
 var combos = [][2]string{{"memkm", "memca"}, {"localkm", "localca"}, {"memkm", "localca"}, {"localkm", "memca"}}
 
-const histRule = "rapid state machine over CLI command histories: component pair drawn from {memkm,localkm} x {memca, localca = gcsca over storage/local in a temp dir} (the four pairs testing/nonprod ships), 2..7 commands, each executed through a FRESH cmd.MakeApp tree with fresh command components (localkm reloads keys from its directory, localca re-reads the manifest) and only the persistent state (key files / in-memory key store, bucket directory / memca object) carried over. Commands: bootstrap (--root_key_cn, --signing_key_cn, --root_key_serial, --initial_signing_key_serial drawn or defaulted, --timestamp in 2001..2040 with fractional seconds and zone offsets, --overwrite, --keep_going), rotate (--signing_key_cn default/previous/new, --rotated_key_serial_override absent / 0 / fresh / colliding with a stored certificate, --timestamp anywhere in the served root's validity incl. both end points, --overwrite, --keep_going), wipeout [ca|keys]; next command weighted by what is observable (mostly sensible, a few out-of-order commands). Oracle after every command, reading back through a fresh authority and signer: no .crt store object changed or vanished unless --overwrite or wipeout ca|all; no live key name silently names another key; a command that fails must leave the state untouched to be continued (a failed command WITH side effects ends the history: failure atomicity is C10). After a successful bootstrap/rotate: root self-signed, IsCA, KeyUsageCertSign, NotAfter-NotBefore = 9131 days, dated at --timestamp; primary's certificate and every certificate of the current chain: not CA, digital-signature and no cert-sign usage, SHA256WithRSAPSS, issuer = root and signature verifies under it, NotBefore = creating command's --timestamp, lifetime 1826 days, certificate serial = subject serial, subject serial = flag value or predecessor+1; Signer.Sign succeeds for the primary and fails for every other signing key name created since the last key wipeout; a rotation's new key version name was never used since the last key wipeout (a successful bootstrap --overwrite, which is documented to replace existing keys, also resets the names whose keys are gone; a key version of the superseded chain that is still alive keeps counting). After a successful wipeout, for the components its command line names (no argument, or a command line naming neither documented literal such as `wipeout all`, = both; `ca keys` = both): no root certificate or certificate readable and no .crt object (ca); no key signs, no .pem file (keys); a wipeout with an undocumented command line that reports success without doing that is one root cause (wipeout-argument-silently-ignored). Added oracles: the certificate served for a key version whose key is alive carries exactly that key (Signer.PublicKey); every certificate a command makes appear, under whatever name, gets an expectation and is judged; a bootstrap/rotate run WITHOUT --timestamp (10%) must date its certificates between the instants read right before and after the command (the only use of the clock: an interval that holds for every correct implementation); after a refused command that left side effects, a key version it created that is neither primary nor root must not sign (everything else about half-done commands is C10). Generator pressure: rotations colliding with a stored certificate 20% (of which --keep_going 40%, --overwrite 20%), bootstraps over certificates-without-keys with --keep_going 40%, undocumented wipeout command lines 10%. non-trivial = >=2 successful rotations, or a wipeout followed by a successful bootstrap, or a successful re-bootstrap with --overwrite over existing state whose new chain was rotated, or a --keep_going command aimed at an existing object of the store-backed authority; distinct = (pair, command kinds with flag classes and outcomes)"
+const histRule = "rapid state machine over CLI command histories: component pair drawn from {memkm,localkm} x {memca, localca = gcsca over storage/local in a temp dir} (the four pairs testing/nonprod ships), 2..7 commands, each executed through a FRESH cmd.MakeApp tree with fresh command components (localkm reloads keys from its directory, localca re-reads the manifest) and only the persistent state (key files / in-memory key store, bucket directory / memca object) carried over. Commands: bootstrap (--root_key_cn, --signing_key_cn, --root_key_serial, --initial_signing_key_serial drawn or defaulted, --timestamp in 2001..2040 with fractional seconds and zone offsets, --overwrite, --keep_going), rotate (--signing_key_cn default/previous/new, --rotated_key_serial_override absent / 0 / fresh / colliding with a stored certificate, --timestamp anywhere in the served root's validity incl. both end points, --overwrite, --keep_going), wipeout [ca|keys]; next command weighted by what is observable (mostly sensible, a few out-of-order commands). Oracle after every command, reading back through a fresh authority and signer: no .crt store object changed or vanished unless --overwrite or wipeout ca|all; no live key name silently names another key; a command that fails must leave the state untouched to be continued (a failed command WITH side effects ends the history: failure atomicity is C10). After a successful bootstrap/rotate: root self-signed, IsCA, KeyUsageCertSign, NotAfter-NotBefore = 9131 days, dated at --timestamp; primary's certificate and every certificate of the current chain: not CA, digital-signature and no cert-sign usage, SHA256WithRSAPSS, issuer = root and signature verifies under it, NotBefore = creating command's --timestamp, lifetime 1826 days, certificate serial = subject serial, subject serial = flag value or predecessor+1; Signer.Sign succeeds for the primary and fails for every other signing key name created since the last key wipeout; a rotation's new key version name was never used since the last key wipeout (a successful bootstrap --overwrite, which is documented to replace existing keys, also resets the names whose keys are gone; a key version of the superseded chain that is still alive keeps counting). After a successful wipeout, for the components its command line names (no argument, or a command line naming neither documented literal such as `wipeout all`, = both; `ca keys` = both): no root certificate or certificate readable and no .crt object (ca); no key signs, no .pem file (keys); a wipeout with an undocumented command line that reports success without doing that is one root cause (wipeout-argument-silently-ignored). Added oracles: the certificate served for a key version whose key is alive carries exactly that key (Signer.PublicKey); every certificate a command makes appear, under whatever name, gets an expectation and is judged; a bootstrap/rotate run WITHOUT --timestamp (10%) must date its certificates between the instants read right before and after the command (the only use of the clock: an interval that holds for every correct implementation); after a refused command that left side effects, a key version it created that is neither primary nor root must not sign (everything else about half-done commands is C10). Serial flag TEXT (the flag values are strings on a command line): each passed --root_key_serial / --initial_signing_key_serial / --rotated_key_serial_override value (fresh, colliding, and the 0 sentinel) is written in 30% of the cases in another decimal spelling of the same number - zero-padded with 1..4 zeros, explicit '+' sign, both, a blank before/after, -0 for the sentinel - with short values (1..129) favoured so that every one and two digit pattern occurs, and in 10% of the commands the serial flags are passed as two arguments (`--flag value`); no radix prefixes or digit separators are generated (nothing is stated about them). The oracle always uses the number the text denotes as a decimal numeral (0020 is twenty, 00 is the sentinel 0): subject serial of the new certificate = that number (key serial-flag-text-not-read-as-decimal when the spelling was not the plain one), the root made by a bootstrap carries the number --root_key_serial denotes (default 1) as certificate serial or subject serial (root-serial-not-requested); a command with a non-plain spelling that is refused without side effects is inconclusive (refusing is safe) and is repeated in the plain spelling. Generator pressure: rotations colliding with a stored certificate 20% (of which --keep_going 40%, --overwrite 20%), bootstraps over certificates-without-keys with --keep_going 40%, undocumented wipeout command lines 10%. non-trivial = >=2 successful rotations, or a wipeout followed by a successful bootstrap, or a successful re-bootstrap with --overwrite over existing state whose new chain was rotated, or a --keep_going command aimed at an existing object of the store-backed authority; distinct = (pair, command kinds with flag classes and outcomes)"
 
 func actionClass(a action, out string) string {
 	s := a.Kind
@@ -1334,6 +1558,9 @@ func actionClass(a action, out string) string {
 	}
 	if a.Time == "" {
 		s += "+notime"
+	}
+	if a.spelled() {
+		s += "+spelled"
 	}
 	return s + "/" + out
 }
@@ -1373,6 +1600,13 @@ func TestHistories(t *testing.T) {
 			if !m.step(t, a) {
 				break
 			}
+			if a.spelled() && m.lastRefusedClean {
+				// refused without side effects while a serial flag was in a non-plain spelling (counted as
+				// inconclusive by step): the same command in the plain spelling keeps the history going
+				if !m.step(t, a.plain()) {
+					break
+				}
+			}
 		}
 		var canon []string
 		for i, a := range m.hist {
@@ -1396,6 +1630,8 @@ func TestHistories(t *testing.T) {
 			{m.sawNoTime, "shape: a successful bootstrap/rotate without --timestamp"}, {m.sawKGCollision, "shape: --keep_going (no --overwrite) aimed at an existing object"},
 			{m.sawLiteralWipe, "shape: successful wipeout with an undocumented command line"}, {m.sawNoClobberPressure, "shape: no-clobber judged under pressure"},
 			{m.sawPubKeyJudged, "shape: certificate key judged against a live key"}, {m.inconclusive, "inconclusive/state-unobservable"},
+			{m.sawSpelledJudged, "shape: a serial passed in a non-plain decimal spelling was accepted and judged against the number it denotes"},
+			{m.sawSpelledRefused, "shape: a command with a non-plain serial spelling was refused (inconclusive, repeated in the plain spelling)"},
 			{len(m.knownHits) > 0, "ended-by-known-finding"}} {
 			if f.on {
 				ev.Class("history", f.name)
